@@ -209,12 +209,14 @@ def run(ctx, out):
             open(os.path.join(d, "src", "f"), "wb").write(b"f" * rng.randrange(1, 5000))
             open(os.path.join(d, "src", "sub", "g"), "wb").write(b"g" * 100)
             open(os.path.join(d, "ext", "real.txt"), "wb").write(b"real")
-            if rng.random() < 0.5:
+            only_empty_dirs = (rep_i % 2 == 0)      # every other history: the ONLY links are links to empty directories
+            if not only_empty_dirs and rng.random() < 0.5:
                 open(os.path.join(d, "ext", "cache", "blob"), "wb").write(b"blob")
             os.symlink("../ext/spool", os.path.join(d, "src", "spool"))                 # -> empty dir; dangles once copied to out/src
             os.symlink("../../ext/cache", os.path.join(d, "src", "sub", "c1"))
             os.symlink("c1", os.path.join(d, "src", "sub", "c2"))                       # chain to a directory
-            os.symlink("../ext/real.txt", os.path.join(d, "src", "lf"))
+            if not only_empty_dirs:
+                os.symlink("../ext/real.txt", os.path.join(d, "src", "lf"))
             first = xcp.run_plain([ctx.bins["xcp"], "-r", "--driver", driver, "src", "out"], d)
             if rng.random() < 0.5:
                 # ... or a stale regular FILE sits where the directory link resolves to a directory
